@@ -302,8 +302,8 @@ def realize(ty, reg: Reg):
     if mode in (True, "annotated"):
         return typing.Annotated[t, "verif"]
     tag = ty if isinstance(ty, str) else ty[0]
-    if tag in ("any", "opt", "union", "lit", "tunp"):
-        return t   # NewType needs a class-like supertype; keep the special forms bare
+    if tag == "any" or (mode == "newtype" and tag == "lit"):
+        return t
     reg.wrap_counter = getattr(reg, "wrap_counter", 0) + 1
     if mode == "newtype":
         nt = typing.NewType(f"NTW{reg.wrap_counter}", t)
